@@ -98,7 +98,7 @@ func GenNeighbours(rng *rand.Rand, n int) []*Scn {
 		sc.Frames = []c01.Frame{
 			{End: "render", Ops: rowOps(1, 2, 12, []string{p[0]}, st)},
 			{End: "render", Ops: rowOps(1, 2+wa, 12, []string{p[1], "|"}, st)},
-			{End: "render", Ops: rowOps(1, 2, 12, []string{"x", "x"}[:1], st)},
+			{End: "render", Ops: rowOps(1, 2, 12, []string{"x"}, st)},
 			{End: "refresh"},
 		}
 		out = append(out, sc)
